@@ -169,13 +169,54 @@ T4 = [
  ("r4-c19-2", "C19", "write_float builds sign and digits into one string and emits it with Formatter::pad", "any explicit precision", ["C19"], ""),
 ]
 
+T5 = [
+ ("r5-c01-1", "C01", "the builder caches activation schemas under (kind, dim, row), ignoring the leaky slope", "two leaky ReLUs with different slopes on the same row and width in one network", ["C01"], "missed at first: the families with equal consecutive widths used one leaky slope at most; families with three slopes were added"),
+ ("r5-c01-2", "C01", "from_poly skips rows without coefficients", "a precondition with a row 0 <= b, b < 0, that is not the first row", ["C01", "C17"], "missed by C01 at first (C17 caught it): the empty preconditions of the alphabet were built from non-zero rows; zero rows behind an ordinary row were added"),
+ ("r5-c02-1", "C02", "the grafted predicate has coefficients below eps * max|coefficient| zeroed", "a terminal of f with entries of very different magnitude (1 and 2^-60)", ["C02"], "strengthening prepared from the agent's summary before the first run (terminal diag(1, 2^-60)); trees holding such numbers are compared exactly but not bound to the f64 evaluator"),
+ ("r5-c02-2", "C02", "apply_func returns early for maps within 2.2e-16 of the identity", "a scaling by 1 + 2^-52", ["C02"], "strengthening prepared from the summary: scalings by 1 + 2^-52 and 1 - 2^-53 in the apply_func alphabet (shifts by 2^-60 were tried and withdrawn: f64 addition rounds them away in any implementation)"),
+ ("r5-c03-1", "C03", "the LP phase of infeasible_elimination searches inside the box |x| <= 1e9", "a region beyond 1e9 that reaches the LP", ["C03", "C11"], "strengthening prepared from the summary: the far programs (thresholds 5 and 7 times 1e6 and 1e9) run in C03 and C11"),
+ ("r5-c03-2", "C03", "forward_if_redundant counts every non-feasible sibling as infeasible", "an undecided sibling (solver error)", ["C03", "C11"], ""),
+ ("r5-c04-1", "C04", "nodes copied from the right operand keep its cached state", "an eliminated right operand grafted into a tree with another input dimension, then a cache-consulting operation", ["C04", "C05"], ""),
+ ("r5-c04-2", "C04", "compose::<false, true> passes the pruning schema (as r3-c02-2)", "the progress-display variant", ["C04", "C02"], ""),
+ ("r5-c05-1", "C05", "phase_inh tests the parent's witnesses against the normalised half-space", "a row of norm above 1 that a cached point misses by more than 1e-8 but less than 1e-8 times the norm", ["C05"], "strengthening prepared from the summary: seeded roots whose stored point misses a row of norm 1024 by 2^-20"),
+ ("r5-c05-2", "C05", "forward_if_redundant splits the children with one partition(is_feasible)", "an Indeterminate sibling", ["C11"], "not reported by C05: in the enumerated runs the wrongly forwarded subtrees carry no cached mark that becomes unsound; C11 reports the changed function under an Error fault"),
+ ("r5-c06-1", "C06", "as_linprog skips rows 'without any variable'", "a tree over R^0 (every axis sliced away)", ["C06"], "strengthening prepared from the summary: all total trees over R^0 with <= 7 nodes"),
+ ("r5-c06-2", "C06", "phase_one accepts a child of a witness-less Feasible parent without an LP", "a parent in state Feasible", ["C06"], "strengthening prepared from the summary: roots marked Feasible without witness (a state a user may set; the library sets it after an 'unbounded' answer)"),
+ ("r5-c07-1", "C07", "is_edge_feasible tightens every label-0 half-space by 1e-6 in raw units", "a decision row of norm 2^-13: the region 0 < x <= 1/256 then counts as empty", ["C07"], "missed at first although the very operands were in the alphabet: the oracle's own margin for 'thinner than the LP tolerance' was 1e-6 in the same raw units. The margin of the pruning checks (C03, C06, C07, C11) is now 1e-7; the unchanged library holds with it in both tiers"),
+ ("r5-c07-2", "C07", "is_edge_feasible re-checks the LP witness with contains()", "thresholds of 1e7 and more with non-dyadic coefficients", ["C07"], "strengthening prepared from the summary: one-split operands with thresholds 1e7..1e10 and coefficients such as 9.7"),
+ ("r5-c08-1", "C08", "PartialEq of affine functions short-cuts on equal data pointers", "functions with input dimension 0 (all zero-element matrices share one dangling pointer)", ["C08"], "strengthening prepared from the summary: trees over R^0"),
+ ("r5-c08-2", "C08", "reduce compares siblings with total_cmp", "sibling terminals that are equal but differ in the sign of a zero", ["C08"], "strengthening prepared from the summary: terminals with -0.0 entries"),
+ ("r5-c09-1", "C09", "PolyhedraGen::next truncates the predicate stack to depth - 1", "PolyhedraGen::with_root at a non-root node, a node after a return", ["C09"], "strengthening prepared from the summary: with_root from every node"),
+ ("r5-c09-2", "C09", "PolyhedraGen::next skips the subtree of nodes cached as Infeasible", "a kept infeasible only-child with descendants (after infeasible_elimination on a partial tree)", ["C09"], "strengthening prepared from the summary: every 4th tree goes through infeasible_elimination first"),
+ ("r5-c10-1", "C10", "as_linprog reads the objective through into_raw_vec", "an owned objective array that is not in standard layout (stride -1, strided)", ["C10"], "strengthening prepared from the summary: non-standard objective arrays in the column-major re-run"),
+ ("r5-c10-2", "C10", "solve_linprog tests the finiteness of the solution through its squared length", "a vertex coordinate above 1.3e154", ["C10"], "strengthening prepared from the summary: bounded sets with vertices at 1e200, and 'Unbounded' for a bounded set as a verdict error of the far family"),
+ ("r5-c11-1", "C11", "phase_two accepts witnesses within 1e-8 * max(1, |b|)", "a Perturbed fault at a node with a large right-hand side", ["C11", "C05"], ""),
+ ("r5-c11-2", "C11", "phase_inh walks up to the closest ancestor with witnesses when the parent is Feasible (as r4-c05-2)", "an Unbounded fault at an inner node", ["C11", "C05"], ""),
+ ("r5-c12-1", "C12", "add_child_node reads the slot with children.get(label)", "a label outside 0..K: the node is inserted before the write panics", ["C12"], "strengthening prepared from the summary: out-of-range labels for add / remove / merge on every state (may fail or panic, must not change the tree)"),
+ ("r5-c12-2", "C12", "add_root frees the old root's slot first", "add_root on a tree whose root has children", ["C12"], "strengthening prepared from the summary: add_root on every state (fresh index, former tree untouched)"),
+ ("r5-c13-1", "C13", "DfsPre::new starts with last_push = 1 (as r3-c09-2, node traversal only)", "skip_subtree before the first next()", ["C13", "C09"], ""),
+ ("r5-c13-2", "C13", "num_nodes(root) returns len()", "a tree re-rooted with add_root (the former tree stays in the arena, unreachable)", [], "not reported: re-rooted trees are outside the enumerated shapes. C12 names add_root as the documented exception to reachability; on such a tree the unchanged library's own size_hint lower bound (len()) already exceeds the number of reachable nodes, so the traversal clauses of C13 cannot be meant for them"),
+ ("r5-c14-1", "C14", "contains uses max(1e-8, A::epsilon()) as tolerance", "the f32 instantiation of the generic polytope type", ["C14"], "strengthening prepared from the summary: a single-precision stage for contains / hypercube on axis-parallel rows (where f32 arithmetic is exact)"),
+ ("r5-c14-2", "C14", "hypercube uses radius.abs()", "a negative radius (the empty set)", ["C14"], "strengthening prepared from the summary: negative radii"),
+ ("r5-c15-1", "C15", "remove_duplicate_rows classifies rows with the f64 epsilon whatever the element type", "the f32 instantiation and rows with norm in (2.2e-16, 1.19e-7]", ["C15"], "strengthening prepared from the summary: a single-precision stage for the clean-up functions"),
+ ("r5-c15-2", "C15", "remove_rows returns a copy when the index iterator's size_hint lower bound is 0", "a lazily filtered index iterator", ["C15", "C16"], "strengthening prepared from the summary: every second index set is passed as (0..m).filter(..) instead of a Vec"),
+ ("r5-c16-1", "C16", "remove_rows sizes its result from size_hint().0", "a lazily filtered index iterator", ["C16"], "see r5-c15-2"),
+ ("r5-c16-2", "C16", "stack returns the other operand when mat.is_empty()", "functions with input dimension 0", ["C16"], "strengthening prepared from the summary: functions R^0 -> R^r and R^n -> R^0 as operands"),
+ ("r5-c17-1", "C17", "remove_axes resets cached states only where a dropped column was non-zero", "slice, eliminate, remove_axes, compose, eliminate", ["C17", "C05", "C04"], "missed by C17 at first (C05 and C04 caught it): the slicing cases now compose and prune one more layer on a copy of the sliced tree"),
+ ("r5-c17-2", "C17", "from_poly returns a single terminal when the else-branch is relative_eq to the then-branch", "an else-branch within one unit in the last place of the then-branch", ["C17"], "strengthening prepared from the summary: nearly equal else-branches"),
+ ("r5-c18-1", "C18", "extract_range records the shape before each operator", "a range taken from an extracted architecture", ["C18"], "strengthening prepared from the summary: recorded shapes of the parts against the whole, nested extraction against direct extraction"),
+ ("r5-c18-2", "C18", "the builder reserves the unbounded node estimate", "a first linear layer with 64 or more neurons", ["C18", "C01"], "strengthening prepared from the summary: architectures / networks with 64-72 neurons in a layer"),
+ ("r5-c19-1", "C19", "write_lincomb takes coefficients in memory order", "a matrix with a negative column stride", ["C19"], "strengthening prepared from the summary: matrices stored column-major or mirrored with inverted axes, chosen by their entries"),
+ ("r5-c19-2", "C19", "the ellipsis is written when the row number equals the window's start bound", "a skip_rows window that starts below zero", ["C19"], "strengthening prepared from the summary: windows starting at -1 and -2"),
+]
+
 extra = {}
 ep = os.path.join(ROOT, "tools", "seed_table_extra.json")
 if os.path.exists(ep):
     extra = json.load(open(ep))
 
 rows = []
-for sid, prop, descr, needs, caught, note in T + T2 + T3 + T4:
+for sid, prop, descr, needs, caught, note in T + T2 + T3 + T4 + T5:
     if sid in extra:
         e = extra[sid]
         descr, needs, caught, note = e["descr"], e["needs"], e["caught"], e.get("note", "")
